@@ -8,6 +8,7 @@ from types import SimpleNamespace
 
 from ..alg import Poly, Q, Rat, is_zero
 from ..repo import AnalysisError, dotted, norm_text, FuncInfo, walk_no_nested
+from ..xarray import XArray
 from ..xeval import Interp, XObj, Opaque, Sink, EnumVal, XRaise, Uninterpretable, _NpAttr, _Bound
 
 PFM = "EasyFEA.Models._phasefield.PhaseField"
@@ -169,13 +170,16 @@ def split_rule(ctx):
     members = repo.enum_members(split_cls.qualname)
     iso = repo.cls(ISO)
     results = {}
+    rp = ctx.rule("R17.7", "polarity of the isotropic splits (Miehe, Amor, Stress; plane stress and plane strain): the positive part is built from the positive selectors (Rp, projP) only, the negative part from (Rm, projM) only", min_instances=8)
     for split in members:
-        for dim in (2, 3):
+        for dim, planeStress in ((2, False), (2, True), (3, False)):
             n = 3 if dim == 2 else 6
+            if planeStress and split not in ("Miehe", "Amor", "Stress"):
+                continue
             r.instance(fn=fC.qualname)
             lam, mu, E, v = (Poly.var(x) for x in ("lam", "mu", "E", "v"))
             Rp, Rm = Poly.var("Rp"), Poly.var("Rm")
-            mat = XObj(iso, dict(dim=dim, isHeterogeneous=False, planeStress=False, E=E, v=v, C=NC.atom("C", n), S=NC.atom("S", n), coef=Opaque("coef")))
+            mat = XObj(iso, dict(dim=dim, isHeterogeneous=False, planeStress=planeStress, E=E, v=v, C=NC.atom("C", n), S=NC.atom("S", n), coef=Opaque("coef")))
             mat.attrs["get_mu"] = lambda: mu
             mat.attrs["get_lambda"] = lambda: lam
             mat.attrs["Get_sqrt_C_S"] = lambda: (NC.atom("sqrtC", n), NC.atom("isqrtC", n))
@@ -197,23 +201,32 @@ def split_rule(ctx):
             I.call_hook = hook
             eps = SimpleNamespace(shape=(1, 1, n), copy=lambda: Opaque("eps"))
             con = f"{fC.qualname}[{split}]"
+            dimtag = f"{dim}{'ps' if planeStress else ''}"
             try:
                 cP, cM = I.call_function(fC, [eps], self_obj=obj)
             except XRaise as e:
                 if e.exc_name == "AssertionError" and "Isotropic" in e.msg:
                     r.ok()
                     continue
-                r.fail(con, f"raises:dim{dim}", fC.file, fC.lineno, "PhaseField.Calc_C", f"SplitType.{split} (dim {dim}) reaches no branch / raises {e}")
+                r.fail(con, f"raises:dim{dimtag}", fC.file, fC.lineno, "PhaseField.Calc_C", f"SplitType.{split} (dim {dim}) reaches no branch / raises {e}")
                 continue
             if not isinstance(cP, NC) or not isinstance(cM, NC):
-                r.fail(con, f"type:dim{dim}", fC.file, fC.lineno, "PhaseField.Calc_C", f"SplitType.{split}: cP/cM are not matrix expressions")
+                r.fail(con, f"type:dim{dimtag}", fC.file, fC.lineno, "PhaseField.Calc_C", f"SplitType.{split}: cP/cM are not matrix expressions")
                 continue
+            if split in ("Miehe", "Amor", "Stress"):
+                rp.instance(fn=fC.qualname)
+                wrongP = (cP.atoms() & {"projM"}) | (cP.scalars() & {"Rm"})
+                wrongM = (cM.atoms() & {"projP"}) | (cM.scalars() & {"Rp"})
+                if wrongP or wrongM:
+                    rp.fail(con, f"polarity:dim{dimtag}", fC.file, fC.lineno, "PhaseField.Calc_C", f"SplitType.{split} (dim {dim}{', plane stress' if planeStress else ''}): the positive part depends on {sorted(wrongP)} / the negative part on {sorted(wrongM)}: the tensile (trace-positive) contribution is attributed to the compressive part and vice versa - the parts still add up, but the driving energy psi+ is the compressive one")
+                else:
+                    rp.ok(f"{split} dim {dim}{' plane stress' if planeStress else ''}: cP <- (Rp, projP), cM <- (Rm, projM)")
             tot = cP + cM
             tot = tot.subs_atom("projM", NC.ident(n) - NC.atom("projP", n)).subs_scalar({"Rm": 1 - Rp})
             sel = (tot.atoms() & {"projP", "projM"}) | (tot.scalars() & {"Rp", "Rm"})
-            results[(split, dim)] = tot
+            results[(split, dim, planeStress)] = tot
             if sel:
-                r.fail(con, f"partition:dim{dim}", fC.file, fC.lineno, "PhaseField.Calc_C", f"SplitType.{split} (dim {dim}): cP + cM still depends on the selector(s) {sorted(sel)} after projM = Id - projP, Rm = 1 - Rp: the two parts do not add up to the undamaged stiffness ({tot!r})")
+                r.fail(con, f"partition:dim{dimtag}", fC.file, fC.lineno, "PhaseField.Calc_C", f"SplitType.{split} (dim {dim}): cP + cM still depends on the selector(s) {sorted(sel)} after projM = Id - projP, Rm = 1 - Rp: the two parts do not add up to the undamaged stiffness ({tot!r})")
                 continue
             # value
             iso_form = NC.atom("IxI", n) * lam + NC.ident(n) * (2 * mu)
@@ -234,7 +247,7 @@ def split_rule(ctx):
             if ok:
                 r.ok(f"{split} dim {dim}: cP + cM == {what}")
             else:
-                r.fail(con, f"value:dim{dim}", fC.file, fC.lineno, "PhaseField.Calc_C", f"SplitType.{split} (dim {dim}): cP + cM = {tot!r}, expected {what}")
+                r.fail(con, f"value:dim{dimtag}", fC.file, fC.lineno, "PhaseField.Calc_C", f"SplitType.{split} (dim {dim}): cP + cM = {tot!r}, expected {what}")
             if split == "Bourdin" and cM.t:
                 r.fail(con, f"bourdin:dim{dim}", fC.file, fC.lineno, "PhaseField.Calc_C", "Bourdin: the negative part must vanish")
 
@@ -544,6 +557,9 @@ def tables_rule(ctx):
 
 
 def run(ctx):
+    from ..shared import commit_idempotent_rule as _commit_idempotent_rule
+
+    _commit_idempotent_rule(ctx, "R17.9")
     ctx.level = "proof"
     ctx.explanation = (
         "Calc_C is interpreted for all 14 SplitType values in a non-commutative matrix algebra (atoms C, S, projP, projM, IxI, sqrtC; scalar selectors Rp, Rm); with "
@@ -554,7 +570,50 @@ def run(ctx):
     )
     ctx.trust("sa/props/c17.py NC (non-commutative polynomials with relations C.S = Id, sqrtC.isqrtC = Id, symmetric atoms)")
     split_rule(ctx)
+    trace_selector_rule(ctx)
     projector_rule(ctx)
     mask_rule(ctx)
     history_rule(ctx)
     tables_rule(ctx)
+
+
+def trace_selector_rule(ctx):
+    """R17.8: the trace-sign selectors: Rp = 1 where tr(eps) > 0, 0 where tr(eps) < 0, 1/2 at tr = 0; Rm = 1 - Rp -- on the
+    components the dimension actually has (xx + yy, + zz in 3-D)."""
+    from ..femchain import XFe, fe_hook_full
+
+    repo = ctx.repo
+    r = ctx.rule("R17.8", "trace-sign selectors: Rp = 1 / 0 / 1/2 for tr > 0 / < 0 / = 0 over the normal components of the dimension, Rm = 1 - Rp", min_instances=2)
+    pf = repo.cls(PFM)
+    f = pf.methods[pf.mangle("__Rp_Rm")] if pf.mangle("__Rp_Rm") in pf.methods else repo.lookup_method(pf, pf.mangle("__Rp_Rm"))
+    for dim in (2, 3):
+        n = 3 if dim == 2 else 6
+        r.instance(fn=f.qualname)
+        # points: tr>0, tr<0, tr=0, and (3-D) a state whose in-plane trace and full trace have opposite signs
+        rows = [[Q(2), Q(-1)] + [Q(0)] * (n - 2), [Q(-3), Q(1)] + [Q(0)] * (n - 2), [Q(1), Q(-1)] + [Q(0)] * (n - 2)]
+        want = [Q(1), Q(0), Q(1, 2)]
+        if dim == 3:
+            rows.append([Q(1), Q(1), Q(-5), Q(9), Q(9), Q(9)])
+            want.append(Q(0))
+            rows[2][2] = Q(0)
+        else:
+            rows.append([Q(1), Q(1), Q(-5)])  # the third entry of a 2-D Kelvin vector is the shear: not part of the trace
+            want.append(Q(1))
+        vec = XFe((1, len(rows), n), [x for row in rows for x in row])
+        obj = XObj(pf, {"_PhaseField__material": SimpleNamespace(dim=dim)})
+        I = Interp(repo)
+        I.call_hook = fe_hook_full
+        try:
+            Rp, Rm = I.call_function(f, [vec], self_obj=obj)
+        except XRaise as e:
+            r.fail(f.qualname, f"selectors:dim{dim}", f.file, f.lineno, "PhaseField.__Rp_Rm", f"dim {dim}: raises {e}")
+            continue
+        Rp, Rm = XArray.from_nested(Rp), XArray.from_nested(Rm)
+        bad = None
+        for k in range(len(rows)):
+            if Rp.data[k] != want[k] or Rm.data[k] != 1 - want[k]:
+                bad = f"state {[str(x) for x in rows[k]]}: (Rp, Rm) = ({Rp.data[k]}, {Rm.data[k]}), expected ({want[k]}, {1 - want[k]})"
+        if bad:
+            r.fail(f.qualname, f"selectors:dim{dim}", f.file, f.lineno, "PhaseField.__Rp_Rm", f"dim {dim}: {bad}")
+        else:
+            r.ok(f"dim {dim}: selectors follow the sign of the trace")
